@@ -56,13 +56,18 @@ def single_routes(prio, pgn, src, dst, data: bytes, rng):
     }
 
 
-def framewise(kind, prio, pgn, src, dst, frames, tpad=0):
+LONG_LIVED: dict = {}
+
+
+def framewise(kind, prio, pgn, src, dst, frames, tpad=0, long_lived=None):
     ident = wire.can_id(prio, pgn, src, dst)
     pdu1 = ((pgn >> 8) & 0xFF) < 240
     d_eff = dst if pdu1 else 255
 
     def run():
-        dec = NMEA2000Decoder()
+        # long_lived: one decoder per route that has already seen every earlier case of this shard, including
+        # an identical transmission of this very message (same stream, same sequence counter)
+        dec = NMEA2000Decoder() if long_lived is None else LONG_LIVED.setdefault(long_lived, NMEA2000Decoder())
         r = None
         for k, f in enumerate(frames):
             if kind == "ebyte":
@@ -182,7 +187,16 @@ def run_shard(spec, acc):
                     "ebyte_frames_tpad": framewise("ebyte", prio, d.pgn, src, dst, frames, 0xFF),
                     "usb_frames_tpad": framewise("usb", prio, d.pgn, src, dst, frames, 0xFF),
                     "plain_frames_extra": framewise("plain", prio, d.pgn, src, dst, frames, 0xFF),
+                    # the same transmission twice on decoders that live for the whole shard
+                    "ebyte_frames_longlived_1st": framewise("ebyte", prio, d.pgn, src, dst, frames, long_lived="ebyte"),
+                    "ebyte_frames_longlived_2nd": framewise("ebyte", prio, d.pgn, src, dst, frames, long_lived="ebyte"),
+                    "usb_frames_longlived_1st": framewise("usb", prio, d.pgn, src, dst, frames, long_lived="usb"),
+                    "usb_frames_longlived_2nd": framewise("usb", prio, d.pgn, src, dst, frames, long_lived="usb"),
+                    "yd_frames_longlived_1st": framewise("yd", prio, d.pgn, src, dst, frames, long_lived="yd"),
+                    "yd_frames_longlived_2nd": framewise("yd", prio, d.pgn, src, dst, frames, long_lived="yd"),
                 }
+                # the long-lived decoders see every transmission, also those whose payload is rejected: a complete
+                # message that fails to decode must leave nothing behind (repeated transmission, same counter)
                 outs = {n: outcome(fn) for n, fn in routes.items()}
                 w.update({"fast": True, "seq": seq, "pad": pad})
                 msgs = compare(outs, acc, w)
